@@ -41,17 +41,19 @@ BFormulaOK(f0, f1) ==
          LET dl(c) == Bv(f1, c) - V(f1, c) * (PP.S \div PP.RU)
              chall == ChangedCells(f0, f1)
              ch == {c \in chall : AbsI(Bv(f1, c)) < 1800000000}      \* codes at the clamp carry no information (huge boxes)
+             \* rewards handed in as 32-bit floats make b a 32-bit float: 24 significant bits
+             slack(m) == IF "f32" \in DOMAIN PP /\ PP.f32 = 1 THEN AbsI(m) \div 2097152 ELSE 0
          IN
          /\ \A c \in chall : N(f1, c) = 1
-         /\ \A c, d \in ch : T.dep[c] = T.dep[d] => dl(c) = dl(d)
+         /\ \A c, d \in ch : T.dep[c] = T.dep[d] => AbsI(dl(c) - dl(d)) <= 2 * slack(dl(c))
          /\ PP.dl # <<>> => \A c \in ch : AbsI(dl(c) - PP.dl[T.dep[c] + 1]) <= 1
          \* default delta(h): the largest squared half-width (first coordinate) over the cells currently at depth h
          /\ PP.dl = <<>> => \A c \in ch : LET m == FoldLeft(LAMBDA a, d : MaxI(a, hw[d]), 0, T.layers[T.dep[c] + 1]) IN
-                                          m >= 1800000000 \/ AbsI(dl(c) - m) <= 1
+                                          m >= 1800000000 \/ AbsI(dl(c) - m) <= 1 + slack(m)
     [] OTHER -> TRUE
 
 MkStep(e) ==
-  LET c0 == MkCheck(PP, T, e)
+  LET c0 == MkCheckEv(PP, T, e, LAMBDA d : N(f, d) > 0)
       f1 == ApplyFc(f, e.fc)
       p  == e.p
       nf == [j \in DOMAIN e.nf |-> SubSeq(e.nf[j], 2, 6)]
@@ -97,9 +99,10 @@ PullStep(e) ==
        ELSE IF PP.algo = "SOO"
             THEN IF ~(\E c \in pt.ret \cap cs : f1 = [f EXCEPT ![c][1] = 1]) THEN bad("stats.pull-mutates")
                  ELSE [f |-> f1, asked |-> {c \in pt.ret \cap cs : N(f1, c) = 1}, err |-> "ok"]
-            ELSE IF ~PullChangeOK(f, f1) THEN bad("stats.pull-mutates")
-                 ELSE IF ~BFormulaOK(f, f1) THEN bad("sweep.b-formula")
-                 ELSE [f |-> f1, asked |-> pt.ret \cap cs, err |-> "ok"]
+            \* StoSOO: a pull may only refresh b-values; a change of the evidence proper (C04) is soft -- the walk goes on
+            \* on the observed values so that the recommendations that follow are still judged (C07)
+            ELSE IF ~BFormulaOK(f, f1) THEN bad("sweep.b-formula")
+                 ELSE [f |-> f1, asked |-> pt.ret \cap cs, err |-> "ok", soft |-> IF ~PullChangeOK(f, f1) THEN "stats.pull-mutates" ELSE "ok"]
 
 RecvStep(e) ==
   LET f1 == ApplyFc(f, e.fc)
@@ -148,6 +151,7 @@ Step ==
             ELSE IF c0 # "ok" THEN err' = c0 /\ UNCHANGED <<T, f, hc, hw, cur, nexp, ph, asked>>
             ELSE LET r == PullStep(e) IN
                  /\ f' = r.f /\ asked' = r.asked /\ ph' = "asked" /\ cur' = <<0, NInf>> /\ nexp' = 0 /\ UNCHANGED <<T, hw>>
+                 /\ soft' = (IF soft = "ok" /\ Has(r, "soft") THEN r.soft ELSE soft)
                  /\ err' = (IF TooOften(r) THEN "sweep.evaluated-too-often" ELSE r.err)
                  /\ hc' = HandOut(r)
        [] e.k = "recv" ->
@@ -164,7 +168,7 @@ Step ==
                         /\ UNCHANGED <<T, f, hc, hw, cur, nexp, ph, asked>>
        [] OTHER -> err' = "unknown-event" /\ UNCHANGED <<T, f, hc, hw, cur, nexp, ph, asked>>
   /\ l' = l + 1 /\ UNCHANGED <<tid, done>>
-  /\ (Ev[l].k = "recv" /\ ph = "asked" /\ CallFail(Ev[l]) = "ok") \/ UNCHANGED soft
+  /\ (Ev[l].k = "recv" /\ ph = "asked" /\ CallFail(Ev[l]) = "ok") \/ (Ev[l].k = "pull" /\ ph = "told" /\ CallFail(Ev[l]) = "ok") \/ UNCHANGED soft
 
 Finish ==
   /\ ~done /\ (err # "ok" \/ l > Len(Ev))
